@@ -1,6 +1,8 @@
 // c11: "the access API always answers, and never with success to a bad request".
 // Every case is a short history on a real access.API (own stores, harness clock):
-//   list denied, list allowed, X, list denied, list allowed, a known-good session request
+//
+//	list denied, list allowed, X, list denied, list allowed, a known-good session request
+//
 // where X ranges over request lines, query values and bearers (signed or not). A raw TCP client reads the
 // answer so that an empty reply / EOF / hang / malformed status line / non-JSON body is seen as such.
 // The whole run lives in a child process under a watchdog.
@@ -151,7 +153,16 @@ func oracle(c acc.Case, idx int, e *acc.Env, res *lib.Result) {
 	}
 	x := *c.Ops[iX].Req
 	o := c.Outs[iX]
-	key := func(clause string) string { return clause + ":" + x.Route + ":" + family(x.Auth.Label) + ":" + family(x.Label) }
+	// stable identifier: clause, endpoint, and which part of the input was unusual (claim or field name only)
+	part := func(l string) string {
+		if i := strings.Index(l, ":"); i > 0 {
+			return l[:i]
+		}
+		return l
+	}
+	key := func(clause string) string {
+		return clause + ":" + x.Route + ":" + part(x.Auth.Label) + "/" + part(x.Label)
+	}
 	bad := func(clause, detail string) {
 		hv, _ := x.Auth.Build(e.Secret)
 		res.Violate(lib.Violation{Clause: clause, Case: idx, Key: key(clause), Replay: c,
@@ -207,6 +218,7 @@ func work(a lib.Args) {
 	if a.Replay != "" {
 		var c acc.Case
 		lib.ReadReplayCase(a.Replay, &c)
+		c.Rebase(envs[c.Cfg.AE])
 		cases = []acc.Case{c}
 	} else {
 		pickEnv := func(r *lib.Rng) (*acc.Env, int64) {
